@@ -9,6 +9,7 @@ import (
 	"path/filepath"
 	"strconv"
 	"strings"
+	"time"
 
 	"github.com/ProtonMail/gluon/imap"
 	"github.com/ProtonMail/gluon/store"
@@ -288,10 +289,23 @@ func extractStore(t *T) (string, error) {
 	if err := os.WriteFile(p, fb[:cut], 0o600); err != nil {
 		return "", err
 	}
-	got, gerr := st.Get(id)
-	rejectsNoBlocks := gerr != nil
-	_ = got
-
+	// the call runs under a watchdog: a Get that does not return is not a Get that rejects
+	type getRes struct {
+		b   []byte
+		err error
+	}
+	getCh := make(chan getRes, 1)
+	go func() {
+		b, err := st.Get(id)
+		getCh <- getRes{b, err}
+	}()
+	rejectsNoBlocks, getReturns := false, true
+	select {
+	case r := <-getCh:
+		rejectsNoBlocks = r.err != nil
+	case <-time.After(10 * time.Second):
+		getReturns = false
+	}
 
 	// ---- store/write_controlled_store.go: the per-message lock table ----
 	const wrel = "store/write_controlled_store.go"
@@ -367,7 +381,6 @@ func extractStore(t *T) (string, error) {
 		}
 	}
 
-
 	// every acquireSyncRef(x) in Get/Set/Delete is paired with releaseSyncRef(x, ref): same ID expression
 	relSameID := true
 	for _, fn := range []string{"Get", "Set", "Delete"} {
@@ -431,7 +444,6 @@ func extractStore(t *T) (string, error) {
 			diskDeleteStops = okShape
 		}
 	}
-
 
 	// onDiskStore.List: every regular file of the directory yields one entry (a name that does not parse is logged and
 	// yields the zero ID); nothing that parses is dropped
@@ -497,7 +509,8 @@ func extractStore(t *T) (string, error) {
 	sb.WriteString("Definition get_reads_block_plus_overhead : bool := " + coqBool(readBufEnc && encSizeOK && encUsesBlockSize) + ".\n")
 	sb.WriteString("Definition builder_installs_no_fallback : bool := " + coqBool(builderNoFallback) + ".\n")
 	sb.WriteString("(* executed: Get on a file cut after header and nonce reports an error *)\n")
-	sb.WriteString("Definition get_rejects_end_of_data : bool := " + coqBool(rejectsNoBlocks) + ".\n")
+	sb.WriteString("Definition get_rejects_end_of_data : bool := " + coqBool(rejectsNoBlocks && getReturns) + ".\n")
+	sb.WriteString("Definition get_returns_on_end_of_data : bool := " + coqBool(getReturns) + ".   (* false: the call was still running after 10 s *)\n")
 	sb.WriteString("(* store/write_controlled_store.go: the lock table *)\n")
 	sb.WriteString("Definition release_decrements_under_lock : bool := " + coqBool(relDecUnderLock) + ".\n")
 	sb.WriteString("Definition release_deletes_entry_and_pools : bool := " + coqBool(relDeletesAndPuts) + ".\n")
